@@ -10,12 +10,12 @@ CLAIMED = {
  "C14": dict(
    text="Lean theorems (all identifier strings, unbounded): lv_pack/lv_unpack round trip, DIVIDER join/split round trip and injectivity under the forced "
         "SepFree guard with counter-example theorems for the guard, session-id resolution; the literal model of the flat session db (set/delete/"
-        "delete_sub_tree/revoke_tree/create/exchange/remove/flush) — for which key uniqueness over all histories and the locality of creation are proved — is tied to the code by correspondence on op histories with hostile identifiers, "
-        "and a tree-consistency/locality oracle runs after every step.",
+        "delete_sub_tree/revoke_tree/create/exchange/remove/flush) — for which key uniqueness over all histories and the locality of creation are proved — is tied to the code by correspondence on op histories with hostile identifiers and on trees built by the ENDPOINTS (logins, token exchange by other clients, client logout), "
+        "and a tree-consistency/locality/node-identity oracle runs after every step.",
    note="Proved for the tree (literal model, every identifier string): one node per path in every reachable state (session_tree_keys_unique, "
         "over all operations); a created grant is stored as created, linked into its client and user node, and creation touches its own branch only "
         "(created_grant_is_stored, created_grant_is_linked, creation_is_local); a removed session is gone and nothing outside its branch changes "
-        "(removed_grant_is_gone, removal_is_local). Revocation cascades in the tree and deletion at user / client level are checked by oracle + "
+        "(removed_grant_is_gone, removal_is_local); revocation at any level reaches every node below it through subordinate links at any depth, changes nothing else and never changes the shape of the tree (revoke_covers_subtree, revoke_is_local, revoke_keeps_tree). Deletion at user / client level is checked by oracle + "
         "correspondence on histories, not proved; Fernet idealised.",
    technique="Lean 4 proof (induction on strings) + model/implementation correspondence on operation histories", ref="6 C14"),
  "C17": dict(
@@ -31,20 +31,19 @@ CLAIMED = {
    text="Lean theorems over the provider core model, for every configuration and every operation history (induction over op lists): a token that is "
         "revoked, expired or removed stays dead for ever (dead_is_final) and no endpoint step honours it again (never_honoured_again: userinfo, "
         "introspection, refresh, token exchange, code redemption); revocation of a grant, of a client session (logout-one), logout from all "
-        "clients and of a single token kills exactly the tokens the property names (cascade theorems incl. logout_all_cascades, using the "
+        "clients and of a single token kills exactly the tokens the property names — a recursive token revocation every token derived from it through ANY number of based_on links (revoke_token_cascades, by an acyclicity invariant of reachable states) — (cascade theorems incl. logout_all_cascades, using the "
         "proved identity invariant of reachable states); revocation and removal are "
         "local (frame theorems). Tie: per-step correspondence of outcomes and full token/grant projections on generated histories + a reference "
         "liveness oracle probing every token at userinfo and introspection after every step.",
    note="Token exchange is in the model (opaque handlers; with JWT handlers the JWT's own exp is not modelled); a token exchanged by ANOTHER client "
-        "is not reached by the recursive revocation of its ancestors: known finding F-C03-b; transitive based_on cascade is proved one level deep + "
-        "checked by oracle; cryptography/token codecs idealised as fresh handles (C04 covers resolution).",
+        "is not reached by the recursive revocation of its ancestors: known finding F-C03-b; cryptography/token codecs idealised as fresh handles (C04 covers resolution).",
    technique="Lean 4 proof: invariants by induction over operation histories of a state-machine model + model/implementation correspondence", ref="6 C03"),
  "C02": dict(
    text="Lean theorems over the provider core model: redeem_at_most_once — in every history from the initial state (any users, clients, codes, "
         "any interleaving of parse_request/process_request steps) the token endpoint delivers tokens for one code at most once (induction over "
         "histories, using the proved reachable-state invariants Inv/ClsInv/PendInv and the integer-bounded analysis of the `used -= 1` counter "
         "dance); delivery_facts — a delivering step implies issuing client, matching redirect_uri, code unused/unrevoked/unexpired and live "
-        "grant at minting time; replay_revokes for the OIDC endpoint. Tie: ALL interleavings of 2 and 3 concurrent redemptions + generated "
+        "grant at minting time; replay_revokes / replay_revokes_transitively for the OIDC endpoint (everything derived from the replayed code, at any depth). Tie: ALL interleavings of 2 and 3 concurrent redemptions + generated "
         "histories (incl. PKCE-bound codes, requests with a claims parameter, single sign-on via session cookies to the client's other redirect_uri), per-step correspondence of outcome and counters, independent delivery-counting oracle.",
    note="Interleaving granularity is the API step; thread-level races inside one call are runtime behaviour outside the model. ID-token signing failure path not exercised.",
    technique="Lean 4 proof: history invariant by induction + decision-logic theorems; exhaustive schedule enumeration for the correspondence", ref="6 C02"),
@@ -65,7 +64,7 @@ CLAIMED = {
         "byte string; encoded values contain no separator; parse_qsl(urlencode ps) = ps. The schemas of all Message subclasses (109 classes, "
         "~860 parameters today) are regenerated from the source on every run and the table obligations (every parameter of a modelled kind "
         "or of a known-opaque triple; modelled share >= 85 %) are re-decided by the kernel. Tie: per class x parameter x format cell "
-        "correspondence of serialised form, percent-encoded text and deserialised value, plus codec correspondence on hostile strings.",
+        "correspondence of serialised form, percent-encoded text and deserialised value (the urlencoded form also as the relying party puts it on the wire for a GET request), plus codec correspondence on hostile strings.",
    note="PARTIAL for opaque kinds (nested messages, JSON objects, identity-assurance specials: ~10 % of parameters): real round-trip only where "
         "generated; JSON text codec and JWS/JWE idealised; negative integers and message-level multi-parameter interactions beyond the pointwise law not modelled.",
    technique="Lean 4 proof (generic round-trip laws + kernel-decided obligations over translator-regenerated schema tables) + cell correspondence", ref="6 C10"),
@@ -76,7 +75,7 @@ CLAIMED = {
         "(typed_slot_lossless, wrong_type_rejected). The verify-override chain of every Message subclass is regenerated from the source (AST) "
         "on every run and the kernel re-decides that exactly the two known classes do not chain. Tie: exhaustive cell check on the real "
         "classes (each required parameter removed/emptied, each enumerated parameter outside its set, each typed parameter given every other "
-        "JSON type) + correspondence of the generic verify and of _add_value with the model; the cross-parameter rules of the seven classes that carry one (provider configuration, authorization request, client metadata, registration request / response, ID token audience, logout token) are modelled and proved to accept only what the rule states (…_accept theorems), tied by truth tables over the real classes.",
+        "JSON type) + correspondence of the generic verify and of _add_value with the model; the cross-parameter rules of the seven classes that carry one (provider configuration, authorization request, client metadata, registration request / response, ID token audience, logout token) are modelled and proved to accept only what the rule states (…_accept theorems), tied by truth tables over the real classes; logout tokens as the relying party's back-channel handler consumes them.",
    note="Cross-field rules of the remaining subclasses (identity assurance, CIBA, device flow) are exercised by the oracle on the real code only; embedded signed objects are covered by C16/C08.",
    technique="Lean 4 proof (decision logic + kernel-decided obligation over the regenerated verify-chain table) + exhaustive cell correspondence", ref="6 C11"),
  "C06": dict(
@@ -85,7 +84,7 @@ CLAIMED = {
         "query and fragment mode the delivered string starts with the accepted URI and what follows the delimiter parses back to exactly the "
         "issued parameters, encoded values contain none of & = # ? space (value_cannot_escape); form_post: the escaped form of ANY string "
         "contains no < > \" ' and an HTML parser recovers the issued value (escape_has_no_markup, unescape_escape); the end-session endpoint redirects only to a post_logout_redirect_uri registered for the client the ID token hint names (post_logout_target). Tie: endpoint-level "
-        "correspondence on component-wise mutated redirect URIs (incl. dropped / foreign query parts) for a web, a native and a dynamically registered client, RP-initiated logout with mutated post-logout URIs, and on full responses in the three modes with "
+        "correspondence on component-wise mutated redirect URIs (incl. dropped / foreign query parts) for a web, a native and two self-registered clients (one native, loopback URIs), RP-initiated logout with mutated post-logout URIs, and on full responses in the three modes with "
         "hostile state values; independent oracle with the RFC 3986 Appendix B split and html.parser.",
    note="PARTIAL: urllib's unquote/urlparse/parse_qs are at the interface (their components are inputs of the model); agreement of urllib with the "
         "RFC split on clean strings is checked per case by the oracle, not proved.",
@@ -96,7 +95,7 @@ CLAIMED = {
         "method is the requested one and configured (no downgrade), essential PKCE enforced over the full global x per-client-override truth "
         "table, unsupported methods refused, and every pair produced by the relying party's add-on is accepted (rp_pair_accepted); the method "
         "tables of both halves are regenerated from the source and the kernel re-decides client methods subset of server methods. Tie: both "
-        "legs through the real authorization and token endpoints over configurations x verifier mutations, and real client add-on pairs.",
+        "legs through the real authorization and token endpoints over configurations x verifier mutations x delivery (plain parameters, request object by value, by reference), and real client add-on pairs.",
    note="SHA-2/base64 are the parameter H (values computed by the harness with hashlib); code resolution and token minting are C04/C02.",
    technique="Lean 4 proof (decision logic, hash uninterpreted; kernel-decided table obligations) + endpoint correspondence", ref="6 C15"),
  "C01": dict(
@@ -110,7 +109,7 @@ CLAIMED = {
         "Tie: histories against the real token/introspection/revocation/userinfo endpoints with credentials built concretely by cryptojwt; "
         "outcome, the request handed on (client_id, authenticated) and replay-cache size compared after every request, through the whole of "
         "parse_request, with a token endpoint that also serves public clients, body parameters naming another client or declaring the request "
-        "authenticated, and export/import into a fresh instance inside the histories; ground-truth oracle.",
+        "authenticated, export/import into a fresh instance inside the histories, assertions valid for a day replayed after pauses of hours; ground-truth oracle.",
    note="JWS signature verification and exp enforcement are inside cryptojwt (field `unpack`, computed by the harness by calling cryptojwt directly); "
         "request_param and bearer_body methods not modelled; 'refused yields no tokens' is exercised through C02/C03 harnesses rather than here.",
    technique="Lean 4 proof (decision logic + monotone replay-cache invariant over request histories) + endpoint correspondence with concrete credentials", ref="6 C01"),
@@ -134,7 +133,7 @@ CLAIMED = {
         "every registration are fresh and pairwise distinct in every reachable state (invariant by induction over registration histories); "
         "read_isolated — the registration access token issued to X reads X and no other client, unknown tokens refused. Tie: histories of "
         "registrations and reads through the real registration and registration-read endpoints; oracle with the rule on the URI string, "
-        "database/token-map diff on rejection, distinctness, echo = stored.",
+        "database/token-map diff on rejection, distinctness, echo = stored; registrations against narrowed capability sets (stored and echoed values within what is announced).",
    note="Capability matching (match_claim), sector_identifier fetch and split_uri/comb_uri are not modelled (echo and metadata consistency are oracle-checked); "
         "URI features are computed with urllib at the interface.",
    technique="Lean 4 proof (exhaustive decision table + freshness invariant by induction) + endpoint correspondence on registration histories", ref="6 C19"),
@@ -144,7 +143,7 @@ CLAIMED = {
         "differ between sectors; different users get different public subjects; ephemeral subjects differ per grant; a public/pairwise sub is an "
         "image of H (the model's form of opacity); the endpoints compute the sub from the client's registered type and sector. Tie: login "
         "sequences of several users (Unicode ids) at seven clients through the real authorization/token/userinfo/introspection endpoints with "
-        "JWT access tokens: the model's preimage hashed with hashlib must equal the delivered sub; relational oracle across logins.",
+        "JWT access tokens, with the provider exported and imported into a fresh instance between logins: the model's preimage hashed with hashlib must equal the delivered sub; relational oracle across logins.",
    note="SHA-256 is the parameter H; collision-freedom is a hypothesis of two theorems, preimage resistance a cryptographic assumption outside Lean; "
         "custom sub_func classes (PublicID/PairWiseID with their own salt) are not driven.",
    technique="Lean 4 proof (equational reasoning with an injective-hash hypothesis) + endpoint correspondence on login sequences", ref="6 C18"),
@@ -154,7 +153,7 @@ CLAIMED = {
         "for that point (restriction_upper_bound, with dict.update semantics); every released attribute is named by the restriction, equals the "
         "stored attribute and matched its individual request (release_upper_bound, released_is_permitted); value/values requests only remove "
         "(claims_match_monotone); nothing for a missing attribute; the configuration that applies at a release point is the client's own when per-client rules are on and the module's otherwise, a hybrid-flow ID token does not inherit userinfo rules unless configured (resolvePoint / secondaryOf theorems), and introspection / token exchange answer a caller outside the token's audience with nothing (aud_gate_sound, outsider_sees_nothing). Tie: flows (code and id_token-only) on one long-lived provider over "
-        "per-point configurations x clients x random scopes x claims objects, hybrid response types, refresh, token exchange by the owner and by another client; released attribute set at the release points compared with the "
+        "per-point configurations x clients x random scopes x claims objects, hybrid response types, refresh, token exchange by the owner and by another client, logout or revocation (with token_type_hint) followed by probes; released attribute set at the release points compared with the "
         "model; oracle: subset of the permitted bound, values equal stored, and the same flow on a fresh provider releases the same set.",
    note="scopes_to_claims is computed by the harness from the configuration it wrote; history "
         "independence is an oracle (aged vs fresh provider) here and a separation property in C20; invalid-token / audience clauses are C03/C04.",
@@ -197,7 +196,7 @@ CLAIMED = {
         "public key as HMAC secret, keys of another known issuer) are never accepted; a rejected token is never stored. Tie: a real "
         "StandAloneClient with pending flows; genuine tokens signed by the harness and every single and random multiple mutation of claims, "
         "header and signer under RP settings (incl. a client restored from an exported state and non-default clock skew), delivered through both APIs at the authorization, token and refresh paths and after a token exchange; outcome and storage compared with the model; "
-        "oracle: an independent validator of the conjunction.",
+        "plus an RPHandler serving two discovered, dynamically registered issuers (tokens under the other issuer's registration secret); oracle: an independent validator of the conjunction.",
    note="JWS verification and cryptojwt's key selection are the decision function sigOk over who signed (trusted: signature soundness); JWE-wrapped ID tokens and "
         "several keys of one family with a missing kid are not exercised.",
    technique="Lean 4 proof (decision logic, acceptance implies conjunction) + mutation correspondence through message and service APIs", ref="6 C08"),
@@ -205,7 +204,7 @@ CLAIMED = {
    text="Lean theorems over a model of the relying party's state store (Current: _db and the shared nonce/sub map) and of init_authorization / "
         "finalize_auth / token-response / user-info handling, with RPHandler's per-issuer dispatch: unknown, missing and foreign-issuer states "
         "are rejected; iss / client_id response parameters naming another party are rejected; an ID token whose nonce is not the one sent for the "
-        "state the response is processed for is rejected whatever the map says (cross_nonce_rejected); user info about another subject is "
+        "state the response is processed for is rejected whatever the map says (cross_nonce_rejected); in hybrid flows the access token and the code beside an ID token are the ones its at_hash / c_hash bind (authz_accept_hashes, foreign_access_token_rejected); an aud response parameter naming somebody else is refused rather than switching checks off (aud_param_for_somebody_else_rejected); user info about another subject is "
         "rejected; every rejection leaves the store untouched (reject_is_noop); an accepted response changes only the record of its own state "
         "(accept_is_local) and no other issuer's client (deliver_other_clients_untouched); and, by induction over ALL histories of begins and "
         "deliveries with arbitrary recombination, every recorded ID token carries the nonce sent for its state "
@@ -215,17 +214,17 @@ CLAIMED = {
    note="Validity of the ID tokens themselves is C08; logout bookkeeping (sid) and the composite RPHandler.finalize are checked by the oracle only.",
    technique="Lean 4 proof (invariant by induction over operation histories of a state-store model) + history correspondence with per-step store dump", ref="6 C09"),
  "C12": dict(
-   text="Lean theorems over the whole (finite) cell type of the configuration product — 129 024 cells: every cell whose response placement is "
+   text="Lean theorems over the whole (finite) cell type of the configuration product — 301 056 cells, all seven response types: every cell whose response placement is "
         "defined completes whatever the other nine dimensions are (supported_cells_complete); a flow is refused exactly for the two "
         "response_type x response_mode conflicts (refused_iff), one required by the specification, one not (code_fragment_refused, a known "
         "finding); what a completed flow consists of — calls in order, artefacts, ID-token encryption, refresh token only with offline access "
-        "(completed_flow_shape); the sub views agree (C18). Tie: real StandAloneClient against real provider in one process with discovery and "
+        "(completed_flow_shape: a token in the authorization response makes the relying party skip the token endpoint); the sub views agree (C18). Tie: real StandAloneClient against real provider in one process with discovery and "
         "dynamic registration; pairwise covering array + every value on the base shape (quick), thousands of random cells (thorough); per cell "
         "the placement, call sequence and artefacts are compared with the model; oracle: the flow completes and client / sub / scope / nonce / "
-        "expiry agree between the RP, the provider's session, the token response, the JWT access token, introspection and userinfo.",
+        "expiry (incl. the RP's own expiry bookkeeping) agree between the RP, the provider's session, the token response, the JWT access token, introspection and userinfo.",
    note="PARTIAL by construction: the theorems are about protocol and negotiation logic; that the serialisers and JOSE layers of both halves agree in a cell is "
-        "observed for the cells run (the evidence says how many of the product), not proved. Token-bearing response types are outside the product (the RP does not "
-        "advertise them).",
+        "observed for the cells run (the evidence says how many of the product), not proved. "
+        "",
    technique="Lean 4 proof over the finite cell type (case analysis, no sampling) + in-process RP<->OP correspondence with cross-view oracle", ref="6 C12"),
  "C20": dict(
    text="Lean theorems over a heap model of Python containers (cells with references, allocation pointer): copy.deepcopy allocates and never "
@@ -238,7 +237,7 @@ CLAIMED = {
         "EVERY request a deep structural snapshot of ~500 static roots (every Message subclass's c_param / c_default / c_allowed_values, "
         "module constants, endpoint and handler attributes, authz / claims configuration, provider_info, client records minus auth_method) "
         "is compared with the one before the batch and with the model's prediction; alias graph static ∩ dynamic reported; history-freedom "
-        "probes (aged vs fresh instance).",
+        "probes (aged vs fresh instance); several relying parties building registration requests in one process.",
    note="PARTIAL: the theorems cover the transcribed flows (usage rules, per-request settings); for all other static state the claim 'unchanged' is the trivial frame and "
         "only the snapshot comparison covers it. Thread-level interleavings are outside the model.",
    technique="Lean 4 proof (heap model: deepcopy freshness by induction + frame theorem; flow variant generated from the AST) + snapshot/alias-graph correspondence", ref="6 C20"),
